@@ -65,8 +65,36 @@ def s1_templates(ctx):
         n0, n1, n2 = (unparse(e) for e in shp[0].value.elts)
         ok = sums.get(n0, ('',))[0].endswith('.shape[0]') and sums.get(n0)[1] == tl and sums.get(n2, ('',))[0].endswith('.shape[2]') and sums.get(n2)[1] == tl
         nchan_name, nsamp_name = n2, n1
-    ctx.check(ok, 'C12.S1', f, shp[0] if shp else 'write_templates', 'merged templates have (sum of template counts, n_samples, sum of channel counts) entries',
-              'the merged templates shape is not (sum shape[0], n_samples, sum shape[2]) over the probes')
+    def total_of(name, k):
+        """'good' when local `name` is the sum over the probes of templates.shape[k] (sum(generator) or the last entry of a running-total list), 'bad' when it is such a
+        sum of ANOTHER axis / list, None when not recognised"""
+        if name in sums:
+            elt, it_, _ = sums[name]
+            if elt.endswith('.shape[%d]' % k) and it_ == tl:
+                return 'good'
+            return 'bad' if '.shape[' in elt else None
+        d_ = f.unique_def(name) if name.isidentifier() else None
+        if d_ is not None and (Pat().any(['max(REST)', 'len(%s)' % tl, 'np.max(REST)'], d_) or
+                               any(isinstance(n_, ast.Subscript) and Pat().m('%s[E_i].shape[E_k]' % tl, n_) and const_value(n_.value.value.slice) is not None for n_ in ast.walk(d_))):
+            return 'bad'          # one probe's extent (or a maximum / a count of probes) instead of the total over the probes
+        if d_ is not None:
+            PB = Pat(f)
+            if PB.m('V_b[-1]', d_):
+                b_ = PB.name('V_b')
+                for lp_ in f.nodes(ast.For):
+                    if unparse(lp_.iter) == tl and isinstance(lp_.target, ast.Name):
+                        for st_ in lp_.body:
+                            P2 = Pat()
+                            for kk in (0, 1, 2):
+                                if Pat().m('%s.append(%s[-1] + %s.shape[%d])' % (b_, b_, lp_.target.id, kk), st_.value if isinstance(st_, ast.Expr) else st_):
+                                    return 'good' if kk == k else 'bad'
+        return None
+    if shp:
+        t0, t2 = total_of(n0, 0), total_of(n2, 2)
+        ctx.tri(t0 == 'good' and t2 == 'good', 'bad' in (t0, t2), 'C12.S1', f, shp[0], 'merged templates have (sum of template counts, n_samples, sum of channel counts) entries',
+                'the merged templates shape is not (sum shape[0], n_samples, sum shape[2]) over the probes', 'how the merged template / channel counts are totalled was not recognised')
+    else:
+        ctx.undecided('C12.S1', f, 'the header shape of the merged templates was not recognised')
     hdr = [c for c in f.calls() if dotted(c.func) == 'np.save' and len(c.args) >= 2]
     opens = [w_ for w_ in f.nodes(ast.With) for it_ in w_.items if isinstance(it_.context_expr, ast.Call) and dotted(it_.context_expr.func) == 'open' and it_.optional_vars is not None]
     fid_name = unparse(opens[0].items[0].optional_vars) if opens else 'fid'
